@@ -57,6 +57,7 @@ class Harness:
         self.Q = pickle.loads(pickle.dumps(U("http://big.example/p?" + "&".join("k%d=v" % i for i in range(34)))))   # a big query (size thresholds)
         # objects whose decoded views need multi-byte UTF-8 decoding (each thread decodes a different object)
         self.D1 = pickle.loads(pickle.dumps(U("http://ü@h.example/%C3%A9.%E2%82%AC?k=%C3%A9#%C3%A4")))
+        self.R1, self.R2 = U("alpha/a.html?x=1"), U("../beta/b.html#frag")   # references resolved against the shared bases
         self.D2 = pickle.loads(pickle.dumps(U("http://%C3%A9@h.example/%F0%9F%98%80?q=%E2%82%AC+x#%C3%BC")))
 
 
@@ -80,6 +81,8 @@ BODIES = [
     ("decode_a", lambda h: (h.D1.path, h.D1.fragment, h.D1.user, h.D1.query_string, h.D1.name)),
     ("decode_b", lambda h: (h.D2.path, h.D2.user, h.D2.fragment, h.D2.query_string, h.D2.human_repr())),
     ("query_big", lambda h: (len(h.Q.query), h.Q.query.get("k33"), h.Q.query_string[:9])),
+    ("join_a", lambda h: (str(h.T.join(h.R1)), str(h.T.join(h.R1)), str(h.B.join(h.R1)))),
+    ("join_b", lambda h: (str(h.T.join(h.R2)), str(h.B.join(h.R2)), str(h.T.join(h.R2)))),
     ("pickle", lambda h: (str(pickle.loads(pickle.dumps(h.T))), h.C.path, h.C.human_repr())),
 ]
 CACHE_BODIES = {6, 7}
